@@ -293,6 +293,14 @@ class Poll(BasePoller):
             self._read_ctrl()
             return
 
+        try:
+            alive = isinstance(fd, int) or fd.fileno() == fileno
+        except ValueError:
+            alive = False
+        if not alive:
+            # closed without discard(); the number may have been reused since
+            event = select.POLLNVAL
+
         if event & self._disconnected_flag and not (event & select.POLLIN):
             self.fire(_disconnect(fd), self.getTarget(fd))
             self._poller.unregister(fileno)
